@@ -158,6 +158,7 @@ package ship
 
 // ---- dispatch ----
 //@ func (c *ShipConnection).handleState(timeout, message) [C04,C01]
+//@   decreases rank(c.role, c.smeState), len(message), 2
 //@   requires roleOK(c.role, c.smeState)
 //@   requires @TINV(c) && @READER(c) && @DMODE(c)
 //@   requires @CLOSEOK(c) || c.smeState == model.SmeHelloStateAbortDone || c.smeState == model.SmeHelloStateRemoteAbortDone
@@ -171,6 +172,7 @@ package ship
 //@   spawns c.$closeScheduled
 //@   modifies c.$closeScheduled
 //@ func (c *ShipConnection).setAndHandleState(state) [C04,C01]
+//@   decreases rank(c.role, state), 0, 3
 //@   requires roleOK(c.role, c.smeState)
 //@   requires [C04] E1-edge: edge(c.role, c.smeState, state)
 //@   requires [C04] E2-final: terminal(c.smeState) ==> terminal(state)
@@ -194,6 +196,7 @@ package ship
 
 // ---- handlers (one per state) ----
 //@ func (c *ShipConnection).handshakeInit_cmiStateInitStart() [C04]
+//@   decreases rank(c.role, c.smeState), 0, 1
 //@   requires c.smeState == model.CmiStateInitStart && roleOK(c.role, c.smeState)
 //@   requires @TINV(c) && @CLOSEOK(c) && @READER(c) && !c.shutdownOnce.$done
 //@   ensures [C04] E3-step: stepOK(c.role, old(c.smeState), c.smeState)
@@ -203,6 +206,7 @@ package ship
 //@   ensures [C01] G4-reader: @READER(c)
 //@   modifies @hs(c)
 //@ func (c *ShipConnection).handshakeInit_cmiStateServerWait(message) [C04]
+//@   decreases rank(c.role, c.smeState), len(message), 1
 //@   requires c.smeState == model.CmiStateServerWait && roleOK(c.role, c.smeState)
 //@   requires @TINV(c) && @CLOSEOK(c) && @READER(c) && !c.shutdownOnce.$done
 //@   ensures [C04] E3-step: stepOK(c.role, old(c.smeState), c.smeState)
@@ -212,6 +216,7 @@ package ship
 //@   ensures [C01] G4-reader: @READER(c)
 //@   modifies @hs(c)
 //@ func (c *ShipConnection).handshakeInit_cmiStateClientWait(message) [C04]
+//@   decreases rank(c.role, c.smeState), len(message), 1
 //@   requires c.smeState == model.CmiStateClientWait && roleOK(c.role, c.smeState)
 //@   requires @TINV(c) && @CLOSEOK(c) && @READER(c) && !c.shutdownOnce.$done
 //@   ensures [C04] E3-step: stepOK(c.role, old(c.smeState), c.smeState)
@@ -221,6 +226,7 @@ package ship
 //@   ensures [C01] G4-reader: @READER(c)
 //@   modifies @hs(c)
 //@ func (c *ShipConnection).handshakeHello_Init() [C04,C01]
+//@   decreases rank(c.role, c.smeState), 0, 1
 //@   requires c.smeState == model.SmeHelloStateReadyInit && roleOK(c.role, c.smeState)
 //@   requires @TINV(c) && @CLOSEOK(c) && @READER(c) && !c.shutdownOnce.$done
 //@   ensures [C04] E3-step: stepOK(c.role, old(c.smeState), c.smeState)
@@ -230,6 +236,7 @@ package ship
 //@   ensures [C01] G4-reader: @READER(c)
 //@   modifies @hs(c)
 //@ func (c *ShipConnection).handshakeHello_ReadyListen(timeout, message) [C04,C01]
+//@   decreases rank(c.role, c.smeState), len(message), 1
 //@   requires c.smeState == model.SmeHelloStateReadyListen && roleOK(c.role, c.smeState)
 //@   requires @TINV(c) && @CLOSEOK(c) && @READER(c) && !c.shutdownOnce.$done
 //@   ensures [C04] E3-step: stepOK(c.role, old(c.smeState), c.smeState)
@@ -239,6 +246,7 @@ package ship
 //@   ensures [C01] G4-reader: @READER(c)
 //@   modifies @hs(c)
 //@ func (c *ShipConnection).handshakeHello_ReadyTimeout() [C04]
+//@   decreases rank(c.role, c.smeState), 0, 0
 //@   requires c.smeState == model.SmeHelloStateReadyListen && roleOK(c.role, c.smeState)
 //@   requires @TINV(c) && @CLOSEOK(c) && @READER(c) && !c.shutdownOnce.$done
 //@   ensures [C04] E3-step: stepOK(c.role, old(c.smeState), c.smeState)
@@ -248,6 +256,7 @@ package ship
 //@   ensures [C01] G4-reader: @READER(c)
 //@   modifies @hs(c)
 //@ func (c *ShipConnection).handshakeHello_Abort() [C04]
+//@   decreases rank(c.role, c.smeState), 0, 1
 //@   requires c.smeState == model.SmeHelloStateAbort && roleOK(c.role, c.smeState)
 //@   requires @TINV(c) && @CLOSEOK(c) && @READER(c)
 //@   ensures [C04] E3-step: stepOK(c.role, old(c.smeState), c.smeState)
@@ -257,6 +266,7 @@ package ship
 //@   ensures [C01] G4-reader: @READER(c)
 //@   modifies @hs(c)
 //@ func (c *ShipConnection).handshakeHello_PendingInit() [C04,C01]
+//@   decreases rank(c.role, c.smeState), 0, 1
 //@   requires c.smeState == model.SmeHelloStatePendingInit && roleOK(c.role, c.smeState)
 //@   requires @TINV(c) && @CLOSEOK(c) && @READER(c) && !c.shutdownOnce.$done
 //@   ensures [C04] E3-step: stepOK(c.role, old(c.smeState), c.smeState)
@@ -266,6 +276,7 @@ package ship
 //@   ensures [C01] G4-reader: @READER(c)
 //@   modifies @hs(c)
 //@ func (c *ShipConnection).handshakeHello_PendingListen(timeout, message) [C04,C01]
+//@   decreases rank(c.role, c.smeState), len(message), 1
 //@   requires c.smeState == model.SmeHelloStatePendingListen && roleOK(c.role, c.smeState)
 //@   requires @TINV(c) && @CLOSEOK(c) && @READER(c) && !c.shutdownOnce.$done
 //@   ensures [C04] E3-step: stepOK(c.role, old(c.smeState), c.smeState)
@@ -275,6 +286,7 @@ package ship
 //@   ensures [C01] G4-reader: @READER(c)
 //@   modifies @hs(c)
 //@ func (c *ShipConnection).handshakeHello_PendingProlongationRequest() [C04]
+//@   decreases rank(c.role, c.smeState), 0, 0
 //@   requires c.smeState == model.SmeHelloStatePendingListen && roleOK(c.role, c.smeState)
 //@   requires @TINV(c) && @CLOSEOK(c) && @READER(c) && !c.shutdownOnce.$done
 //@   ensures [C04] E3-step: stepOK(c.role, old(c.smeState), c.smeState)
@@ -284,6 +296,7 @@ package ship
 //@   ensures [C01] G4-reader: @READER(c)
 //@   modifies @hs(c)
 //@ func (c *ShipConnection).handshakeHello_PendingTimeout() [C04]
+//@   decreases rank(c.role, c.smeState), 0, 0
 //@   requires c.smeState == model.SmeHelloStatePendingListen && roleOK(c.role, c.smeState)
 //@   requires @TINV(c) && @CLOSEOK(c) && @READER(c) && !c.shutdownOnce.$done
 //@   ensures [C04] E3-step: stepOK(c.role, old(c.smeState), c.smeState)
@@ -293,6 +306,7 @@ package ship
 //@   ensures [C01] G4-reader: @READER(c)
 //@   modifies @hs(c)
 //@ func (c *ShipConnection).handshakeProtocol_Init() [C04]
+//@   decreases rank(c.role, c.smeState), 0, 1
 //@   requires c.smeState == model.SmeHelloStateOk && roleOK(c.role, c.smeState)
 //@   requires @TINV(c) && @CLOSEOK(c) && @READER(c) && !c.shutdownOnce.$done
 //@   ensures [C04] E3-step: stepOK(c.role, old(c.smeState), c.smeState)
@@ -302,6 +316,7 @@ package ship
 //@   ensures [C01] G4-reader: @READER(c)
 //@   modifies @hs(c)
 //@ func (c *ShipConnection).handshakeProtocol_smeProtHStateServerListenProposal(message) [C04]
+//@   decreases rank(c.role, c.smeState), len(message), 1
 //@   requires c.smeState == model.SmeProtHStateServerListenProposal && roleOK(c.role, c.smeState)
 //@   requires @TINV(c) && @CLOSEOK(c) && @READER(c) && !c.shutdownOnce.$done
 //@   ensures [C04] E3-step: stepOK(c.role, old(c.smeState), c.smeState)
@@ -311,6 +326,7 @@ package ship
 //@   ensures [C01] G4-reader: @READER(c)
 //@   modifies @hs(c)
 //@ func (c *ShipConnection).handshakeProtocol_smeProtHStateServerListenConfirm(message) [C04]
+//@   decreases rank(c.role, c.smeState), len(message), 1
 //@   requires c.smeState == model.SmeProtHStateServerListenConfirm && roleOK(c.role, c.smeState)
 //@   requires @TINV(c) && @CLOSEOK(c) && @READER(c) && !c.shutdownOnce.$done
 //@   ensures [C04] E3-step: stepOK(c.role, old(c.smeState), c.smeState)
@@ -320,6 +336,7 @@ package ship
 //@   ensures [C01] G4-reader: @READER(c)
 //@   modifies @hs(c)
 //@ func (c *ShipConnection).handshakeProtocol_smeProtHStateClientInit() [C04]
+//@   decreases rank(c.role, c.smeState), 0, 0
 //@   requires c.smeState == model.SmeProtHStateClientInit && roleOK(c.role, c.smeState)
 //@   requires @TINV(c) && @CLOSEOK(c) && @READER(c) && !c.shutdownOnce.$done
 //@   ensures [C04] E3-step: stepOK(c.role, old(c.smeState), c.smeState)
@@ -329,6 +346,7 @@ package ship
 //@   ensures [C01] G4-reader: @READER(c)
 //@   modifies @hs(c)
 //@ func (c *ShipConnection).handshakeProtocol_smeProtHStateClientListenChoice(message) [C04]
+//@   decreases rank(c.role, c.smeState), len(message), 1
 //@   requires c.smeState == model.SmeProtHStateClientListenChoice && roleOK(c.role, c.smeState)
 //@   requires @TINV(c) && @CLOSEOK(c) && @READER(c) && !c.shutdownOnce.$done
 //@   ensures [C04] E3-step: stepOK(c.role, old(c.smeState), c.smeState)
@@ -338,6 +356,7 @@ package ship
 //@   ensures [C01] G4-reader: @READER(c)
 //@   modifies @hs(c)
 //@ func (c *ShipConnection).handshakePin_Init() [C04]
+//@   decreases rank(c.role, c.smeState), 0, 1
 //@   requires c.smeState == model.SmePinStateCheckInit && roleOK(c.role, c.smeState)
 //@   requires @TINV(c) && @CLOSEOK(c) && @READER(c) && !c.shutdownOnce.$done
 //@   ensures [C04] E3-step: stepOK(c.role, old(c.smeState), c.smeState)
@@ -347,6 +366,7 @@ package ship
 //@   ensures [C01] G4-reader: @READER(c)
 //@   modifies @hs(c)
 //@ func (c *ShipConnection).handshakePin_smePinStateCheckListen(message) [C04]
+//@   decreases rank(c.role, c.smeState), len(message), 1
 //@   requires c.smeState == model.SmePinStateCheckListen && roleOK(c.role, c.smeState)
 //@   requires @TINV(c) && @CLOSEOK(c) && @READER(c) && !c.shutdownOnce.$done
 //@   ensures [C04] E3-step: stepOK(c.role, old(c.smeState), c.smeState)
@@ -356,6 +376,7 @@ package ship
 //@   ensures [C01] G4-reader: @READER(c)
 //@   modifies @hs(c)
 //@ func (c *ShipConnection).handshakeAccessMethods_Init() [C04]
+//@   decreases rank(c.role, c.smeState), 0, 1
 //@   requires c.smeState == model.SmePinStateCheckOk && roleOK(c.role, c.smeState)
 //@   requires @TINV(c) && @CLOSEOK(c) && @READER(c) && !c.shutdownOnce.$done
 //@   ensures [C04] E3-step: stepOK(c.role, old(c.smeState), c.smeState)
@@ -365,6 +386,7 @@ package ship
 //@   ensures [C01] G4-reader: @READER(c)
 //@   modifies @hs(c)
 //@ func (c *ShipConnection).handshakeInit_cmiStateEvaluate(message) [C04]
+//@   decreases rank(c.role, c.smeState), len(message), 0
 //@   requires c.smeState == model.CmiStateServerEvaluate || c.smeState == model.CmiStateClientEvaluate
 //@   requires @TINV(c) && @CLOSEOK(c) && @READER(c) && !c.shutdownOnce.$done
 //@   ensures result ==> c.smeState == old(c.smeState) && @QUIET(c)
@@ -379,6 +401,7 @@ package ship
 //@ macro IDP() := cast($decoded, model.AccessMethods).AccessMethods.Id
 //@ macro DONE(c) := (c.smeState == model.SmeStateApproved || c.smeState == model.SmeStateComplete)
 //@ func (c *ShipConnection).handshakeAccessMethods_Request(message) [C04,C09,C01]
+//@   decreases rank(c.role, c.smeState), len(message), 1
 //@   requires c.smeState == model.SmeAccessMethodsRequest && roleOK(c.role, c.smeState)
 //@   requires @TINV(c) && @CLOSEOK(c) && @READER(c) && !c.shutdownOnce.$done
 //@   ensures [C04] E3-step: stepOK(c.role, old(c.smeState), c.smeState)
